@@ -230,3 +230,151 @@ pub fn run_expr(f: &[&str]) -> String {
         }
     }
 }
+
+// ---------------------------------------------------------------------------------------------
+// kind `chain3`: `t0 o t1 o t2` with ONE binary operator of the built-in value / float table, one
+// term a variable, the others literals. Documented semantics: left to right, i.e. (t0 o t1) o t2;
+// only the operators the documentation flags as re-associable (`+ * dot | & XOR && ||` of the
+// value table, `+ *` of the float table) may be regrouped/reordered when literals are folded.
+// Judged inside the harness against the operator function of the table applied by hand.
+
+const VAL_FLAGGED: &[&str] = &["+", "dot", "*", "|", "&", "XOR", "&&", "||"];
+const F64_FLAGGED: &[&str] = &["+", "*"];
+const VAL_LITS: &[&str] = &[
+    "0", "1", "2", "3", "8", "13", "31", "32", "40", "65536", "2147483647", "2147483646", "0.0", "0.5", "1.0", "2.5", "3.0", "10000000000.0", "2147483647.5",
+    "true", "false", "[1, 2, 3]", "[0.5, 2]", "[1]", "[3, 4.5, 1]", "(-1)", "(-13)", "(-0.5)",
+];
+const F64_LITS: &[&str] = &["0", "1", "2", "3", "8", "0.5", "2.5", "0.1", "0.7", "10000000000.0", "0.0000001", "100000000000000000000000000000000000000000.0", "7.25", "(-1)", "(-2.5)", "(-0.1)"];
+
+pub fn gen_chain3(r: &mut Rng, _tier: &str, _i: usize, stats: &mut BTreeMap<String, u64>) -> String {
+    let val = r.chance(2, 3);
+    let (name, a, b, x) = if val {
+        let (bops, _) = op_lists();
+        if r.chance(1, 2) {
+            // integers only: shifts, bit operators, powers and remainders are defined there
+            let ints = &VAL_LITS[..12];
+            let x = Val::Int(match r.below(3) {
+                0 => r.below(5000) as i32,
+                1 => (r.next() as i32) >> r.below(24),
+                _ => r.next() as i32,
+            });
+            (r.pick(&bops).clone(), r.pick(ints).to_string(), r.pick(ints).to_string(), enc(&x))
+        } else {
+            (r.pick(&bops).clone(), r.pick(VAL_LITS).to_string(), r.pick(VAL_LITS).to_string(), enc(&rand_val(r)))
+        }
+    } else {
+        use exmex::FloatOpsFactory;
+        let bops: Vec<String> = FloatOpsFactory::<f64>::make().iter().filter(|o| o.has_bin()).map(|o| o.repr().to_string()).collect();
+        let x = match r.below(4) {
+            0 => (r.below(2000) as f64 - 1000.0) / 8.0,
+            1 => r.below(20) as f64,
+            2 => (r.below(1000) as f64) / 1000.0,
+            _ => f64::from_bits(r.next()),
+        };
+        (r.pick(&bops).clone(), r.pick(F64_LITS).to_string(), r.pick(F64_LITS).to_string(), format!("{:016x}", x.to_bits()))
+    };
+    let pos = r.below(3);
+    *stats.entry(format!("{}_pos{}", if val { "val" } else { "f64" }, pos)).or_insert(0) += 1;
+    format!("chain3\t{}\t{}\t{}\t{}\t{}\t{}", if val { "val" } else { "f64" }, hex(&name), pos, hex(&a), hex(&b), x)
+}
+
+fn same_f(a: f64, b: f64) -> bool {
+    (a.is_nan() && b.is_nan()) || a.to_bits() == b.to_bits()
+}
+fn same_v(a: &V, b: &V) -> bool {
+    match (a, b) {
+        (Val::Float(x), Val::Float(y)) => same_f(*x, *y),
+        (Val::Array(x), Val::Array(y)) => x.len() == y.len() && x.iter().zip(y.iter()).all(|(p, q)| same_f(*p, *q)),
+        (Val::Error(_), Val::Error(_)) => true,
+        (Val::None, Val::None) => true,
+        (Val::Int(x), Val::Int(y)) => x == y,
+        (Val::Bool(x), Val::Bool(y)) => x == y,
+        _ => false,
+    }
+}
+
+/// all values the three terms may legitimately produce: left-to-right, plus every grouping of
+/// every order when the operator is documented as re-associable
+fn allowed<T: Clone>(f: fn(T, T) -> T, t: [T; 3], flagged: bool) -> Vec<T> {
+    let g = |i: usize, j: usize, k: usize| -> Vec<T> {
+        vec![f(f(t[i].clone(), t[j].clone()), t[k].clone()), f(t[i].clone(), f(t[j].clone(), t[k].clone()))]
+    };
+    if !flagged {
+        return vec![f(f(t[0].clone(), t[1].clone()), t[2].clone())];
+    }
+    let mut v = vec![];
+    for (i, j, k) in [(0, 1, 2), (0, 2, 1), (1, 0, 2), (1, 2, 0), (2, 0, 1), (2, 1, 0)] {
+        v.extend(g(i, j, k));
+    }
+    v
+}
+
+pub fn run_chain3(f: &[&str]) -> String {
+    use exmex::{DeepEx, Express, FlatEx, FlatExVal, FloatOpsFactory};
+    let name = crate::sym::unhex(f[1]);
+    let pos: usize = f[2].parse().unwrap();
+    let (a, b) = (crate::sym::unhex(f[3]), crate::sym::unhex(f[4]));
+    let mut terms = vec![a.clone(), b.clone()];
+    terms.insert(pos, "v".to_string());
+    let text = format!("{} {} {} {} {}", terms[0], name, terms[1], name, terms[2]);
+    let xs = f[5].to_string();
+    let is_val = f[0] == "val";
+    let res = std::panic::catch_unwind(move || -> Result<String, String> {
+        if is_val {
+            let ops = ValOpsFactory::<i32, f64>::make();
+            let op = ops.iter().find(|o| o.repr() == name && o.has_bin()).ok_or("NOOP")?;
+            let fun = op.bin().unwrap().apply;
+            let x = dec(&xs);
+            let lit = |s: &str| -> Result<V, String> { exmex::parse_val::<i32, f64>(s).and_then(|e| e.eval(&[])).map_err(|_| format!("LIT {}", s)) };
+            let mut t = vec![lit(&a)?, lit(&b)?];
+            t.insert(pos, x.clone());
+            let ok = allowed(fun, [t[0].clone(), t[1].clone(), t[2].clone()], VAL_FLAGGED.contains(&name.as_str()));
+            let got = [
+                ("fold", exmex::parse_val::<i32, f64>(&text).and_then(|e| e.eval(&[x.clone()]))),
+                ("wo", FlatExVal::<i32, f64>::parse_wo_compile(&text).and_then(|e| e.eval(&[x.clone()]))),
+                ("deep", DeepEx::<V, ValOpsFactory<i32, f64>, exmex::ValMatcher>::parse(&text).and_then(|e| e.eval(&[x.clone()]))),
+            ];
+            for (tag, g) in got {
+                match g {
+                    Err(_) => return Ok(format!("r=DIFF {} rejected text={}", tag, hex(&text))),
+                    Ok(v) => {
+                        if !ok.iter().any(|w| same_v(w, &v)) {
+                            return Ok(format!("r=DIFF {}={} documented={} text={}", tag, enc(&v), enc(&ok[0]), hex(&text)));
+                        }
+                    }
+                }
+            }
+            Ok("r=ok".into())
+        } else {
+            let ops = FloatOpsFactory::<f64>::make();
+            let op = ops.iter().find(|o| o.repr() == name && o.has_bin()).ok_or("NOOP")?;
+            let fun = op.bin().unwrap().apply;
+            let x = f64::from_bits(u64::from_str_radix(&xs, 16).unwrap());
+            let lit = |s: &str| -> Result<f64, String> { FlatEx::<f64>::parse(s).and_then(|e| e.eval(&[])).map_err(|_| format!("LIT {}", s)) };
+            let mut t = vec![lit(&a)?, lit(&b)?];
+            t.insert(pos, x);
+            let ok = allowed(fun, [t[0], t[1], t[2]], F64_FLAGGED.contains(&name.as_str()));
+            let got = [
+                ("fold", FlatEx::<f64>::parse(&text).and_then(|e| e.eval(&[x]))),
+                ("wo", FlatEx::<f64>::parse_wo_compile(&text).and_then(|e| e.eval(&[x]))),
+                ("deep", DeepEx::<f64>::parse(&text).and_then(|e| e.eval(&[x]))),
+            ];
+            for (tag, g) in got {
+                match g {
+                    Err(_) => return Ok(format!("r=DIFF {} rejected text={}", tag, hex(&text))),
+                    Ok(v) => {
+                        if !ok.iter().any(|w| same_f(*w, v)) {
+                            return Ok(format!("r=DIFF {}={:016x} documented={:016x} text={}", tag, v.to_bits(), ok[0].to_bits(), hex(&text)));
+                        }
+                    }
+                }
+            }
+            Ok("r=ok".into())
+        }
+    });
+    match res {
+        Ok(Ok(s)) => s,
+        Ok(Err(e)) => format!("r={}", e),
+        Err(_) => "PANIC".into(),
+    }
+}
